@@ -73,7 +73,10 @@ Headers == {<<>>, <<"DESCRIPTION: x">>, <<"HiC MAP RESOLUTION: 2.5 bp/texel", "s
 SmallAsms == {[header |-> h, scaffolds |-> <<[name |-> n, rows |-> rs]>>] : h \in Headers, n \in ScNames, rs \in {<<r>> : r \in RowPool}}
 R(S) == RandomElement(S)
 RandRows(x) == [q \in 1..R({1, 2, 3}) |-> R(RowPool)]
-RandAsm(x) == [header |-> R(Headers), scaffolds |-> [s \in 1..R({1, 2, 3}) |-> [name |-> (<<"s1", "chr 2", "N">>)[s], rows |-> RandRows(s)]]]
+\* scaffold names may come back later in the file (never twice in a row: neither format can express that)
+NameSeqs == {<<"s1", "chr 2", "N">>, <<"s1", "chr 2", "s1">>, <<"N", "s1", "N">>}
+MkAsm(ns, x) == [header |-> R(Headers), scaffolds |-> [s \in 1..R({1, 2, 3}) |-> [name |-> ns[s], rows |-> RandRows(s)]]]
+RandAsm(x) == MkAsm(R(NameSeqs), x)
 Universe == SmallAsms \cup {RandAsm(x) : x \in 1..NRandomAsm}
 VARIABLE asm
 UInit == asm \in Universe
